@@ -1,6 +1,6 @@
 import os
 SOLVER = os.environ.get("C06_SOLVER", "cadical")
-KF = {}   # known-finding blocking defines in force, e.g. {"KF_TIMER_USEC": None}
+KF = {"KF_TIMER_USEC": None}   # known-finding blocking defines in force (see findings/)
 
 META = {
     "bounds": "",
@@ -11,18 +11,44 @@ META = {
 
 UNITS = ["s", "ms", "us", "ns"]
 
+# windows for the args entry points (units with a division): unit boundaries named in the property's quantifier
+WINDOWS = [0, 999999 - 2048, 1000000000 - 2048, (1 << 32) - 2048, (1 << 63) - 2048, (1 << 64) - 4096]
+WIN_SIZE = 4096
+
 def timer_jobs(tier):
     out = []
     for u, un in enumerate(UNITS):
         for pre in (0, 1):
+            st = "timer already installed by an earlier add (re-arm via add or enable)" if pre else "fresh udata"
+            # ev entry points: the oracle reads the same tp_event_t object as the code => shared divider, all data
             out.append({
-                "name": "timer-%s-%s" % (un, "rearm" if pre else "fresh"), "src": "timer.c",
-                "defs": dict(KF, UNIT=u, PRE=pre), "unwind": 6, "solver": SOLVER,
-                "shape": "unit=%s, %s; all 64-bit data, flags in {0,ONESHOT,DISPATCH}, ABSTIME on/off, all kernel results" % (
-                    un, "timer already installed by an earlier add (re-arm)" if pre else "fresh udata"),
-                "desc": "accepted iff representable (kernel permitting); it_value == data*unit (128-bit), interval, clock, "
-                        "ABSTIME flag, epoll ADD; refused => nothing stays installed",
+                "name": "timer-%s-%s-ev" % (un, "rearm" if pre else "fresh"), "src": "timer.c",
+                "defs": dict(KF, UNIT=u, PRE=pre, API_EV=1), "unwind": 6, "solver": SOLVER,
+                "shape": "tpt_ev_add(ev)/tpt_ev_enable(1,ev), unit=%s, %s; all 64-bit data, flags in {0,ONESHOT,DISPATCH}, "
+                         "ABSTIME on/off, all kernel results" % (un, st),
+                "desc": "accepted iff seconds fit time_t (kernel permitting); it_value == data*unit (Euclid form), interval, "
+                        "clock, ABSTIME flag, epoll ADD; refused => nothing stays installed",
             })
+            # args entry points copy data into a callee-local event: no shared divider; everything except the value
+            # equality for all data, the value equality for all data in seconds (no division) and on windows otherwise
+            out.append({
+                "name": "timer-%s-%s-args" % (un, "rearm" if pre else "fresh"), "src": "timer.c",
+                "defs": dict(KF, UNIT=u, PRE=pre, API_EV=0), "unwind": 6, "solver": SOLVER,
+                "prop_exclude": None if u == 0 else "Euclid",
+                "shape": "tpt_ev_add_args/tpt_ev_enable_args(1,..), unit=%s, %s; all 64-bit data, flags, ABSTIME, all kernel "
+                         "results" % (un, st),
+                "desc": "as the -ev job" + ("" if u == 0 else " except the it_value equality (see -args-w* jobs)"),
+            })
+            if u != 0:
+                wins = WINDOWS if tier == "thorough" or not pre else WINDOWS[1:3]
+                for wi, wb in enumerate(wins):
+                    out.append({
+                        "name": "timer-%s-%s-args-w%d" % (un, "rearm" if pre else "fresh", WINDOWS.index(wb)), "src": "timer.c",
+                        "defs": dict(KF, UNIT=u, PRE=pre, API_EV=0, WIN_BASE="%dull" % wb, WIN_SIZE="%dull" % WIN_SIZE),
+                        "unwind": 6, "solver": SOLVER, "prop_include": "Euclid|accepted when|is refused",
+                        "shape": "tpt_ev_add_args/enable_args, unit=%s, %s; data in [%d, %d+%d)" % (un, st, wb, wb, WIN_SIZE),
+                        "desc": "it_value == data*unit (Euclid form) through the args entry points on a window",
+                    })
     return out
 
 def lemma_jobs(tier):
